@@ -62,7 +62,10 @@ class Render:
             return w if c[1] == 1 else "%s %d" % (w, c[1])
         if k in ("r", "x"):
             w = "return" if k == "r" else "exit"
-            return w if c[1] is None else "%s %d" % (w, c[1])
+            if c[1] is None:
+                return w
+            # `return -2` without `--` is rejected by brush's option parser (finding KF-C02-return-negative-needs-dashes)
+            return "%s -- %d" % (w, c[1]) if c[1] < 0 else "%s %d" % (w, c[1])
         if k == "s":
             o = {"e": "e", "u": "u", "p": "o pipefail"}[c[1]]
             return "set %s%s" % ("-" if c[2] else "+", o)
@@ -328,13 +331,13 @@ class Gen:
                         return ("b", r.randint(1, ctx.loops))
                     return st(r.choice([0, 1]))
                 return (k, r.randint(1, hi))
-            return (k, r.choice([0, 1, 1, 2, 3, 5]))
+            return (k, r.choice([0, 1, 1, 2, 3, 5, 127, 128, 200, 99999]))
         if x < 0.70:
             if ctx.fn or r.random() < 0.15:
-                return ("r", r.choice([None, 0, 1, 3, 5]))
+                return ("r", r.choice([None, 0, 1, 3, 5, 5, 255, 256, 257, 300, 512, -1, -2, -256, 65536 + 7, 2147483647]))
             return st(1)
         if x < 0.75:
-            return ("x", r.choice([None, 0, 1, 4]))
+            return ("x", r.choice([None, 0, 1, 4, 4, 255, 256, 300, -1, -2, 1000]))
         if x < 0.85:
             return ("l", r.randrange(0, 3)) if not ctx.silent else st(r.choice([0, 1]))
         if x < 0.93 and self.opts:
